@@ -394,6 +394,11 @@ func (r *reader) initNodes(tr io.Reader) error {
 					if err != nil {
 						return fmt.Errorf("cannot get hardlink destination %q ==> %q (%d): %w", ent.Name, ent.LinkName, id, err)
 					}
+					if readMode(b).IsDir() {
+						// A directory reachable under two names makes the tree cyclic
+						// (e.g. "a/b" -> "a") so every recursive walk never ends.
+						return fmt.Errorf("%q is a hardlink to the directory %q", ent.Name, ent.LinkName)
+					}
 					numLink, _ := binary.Varint(b.Get(bucketKeyNumLink))
 					if err := putInt(b, bucketKeyNumLink, numLink+1); err != nil {
 						return fmt.Errorf("cannot put NumLink of %q ==> %q: %w", ent.Name, ent.LinkName, err)
@@ -619,6 +624,10 @@ func (r *reader) getOrCreateDir(nodes *bolt.Bucket, md map[uint32]*metadataEntry
 		b, err = getNodeBucketByID(nodes, id)
 		if err != nil {
 			return 0, nil, fmt.Errorf("failed to get dir bucket %d: %w", id, err)
+		}
+		if !readMode(b).IsDir() {
+			// Children of a non-directory plus a hardlink to it make the tree cyclic.
+			return 0, nil, fmt.Errorf("%q is not a directory but has a child", d)
 		}
 	}
 	return id, b, nil
